@@ -135,12 +135,17 @@ func init() {
 			if c.replay == nil && directedKind == "meta" && i%10 == 9 {
 				directedKind = "metaRead"
 			}
+			if c.replay == nil && directedKind == "overdraftTwice" && i%20 == 11 {
+				directedKind = "sweepDebt"
+			}
 			if c.replay == nil && directedKind == "unbounded" && i%20 == 7 {
 				directedKind = []string{"varReuse0", "varReuse1", "varReuse2", "varReuse3"}[(i/20)%4]
 			}
 			switch directedKind {
 			case "capVarReuse":
 				prog = g.capVarReuseProgram(false)
+			case "sweepDebt":
+				prog = g.sweepDebtProgram()
 			case "metaRead":
 				prog = g.metaReadThenWriteProgram()
 			case "varReuse0":
@@ -460,6 +465,16 @@ func (c *Ctx) c11Case(sc Scenario) {
 		interpreter.RunProgram(context.Background(), pr.Value, v2, numscript.StaticStore{Balances: deepCopyBalances(sc.Bal), Meta: deepCopyMeta(sc.Meta)}, flags)
 		return dumpProgram(pr.Value) == before
 	}()
+	if len(sc.Text)%2 == 0 {
+		// one case in two: the parsed program has already been run, with OTHER values in its variables (other
+		// amounts, other assets) and another store: a run depends on its own inputs only
+		warm := map[string]string{}
+		for k, v := range sc.Vars {
+			warm[k] = perturbVar(v)
+		}
+		runParsed(p, warm, numscript.StaticStore{Balances: deepCopyBalances(sc.Bal), Meta: deepCopyMeta(sc.Meta)}, sc.Flag)
+		c.count("warmed_up_with_other_variables")
+	}
 	o1 := runParsed(p, vars, logged, sc.Flag)
 	unchanged := balancesEqual(bal, sc.Bal) && metaEqual(meta, sc.Meta) && len(vars) == len(sc.Vars) && treeSame
 	for k, v := range sc.Vars {
@@ -477,6 +492,11 @@ func (c *Ctx) c11Case(sc Scenario) {
 		}
 	}
 	unchanged = unchanged && balancesEqual(bal, sc.Bal) && metaEqual(meta, sc.Meta)
+	// ... and a run of a FRESH parse of the same text on copies of the same inputs: what a parse result has been
+	// through makes no difference
+	if fresh := runParsed(numscript.Parse(sc.Text), sc.Vars, numscript.StaticStore{Balances: deepCopyBalances(sc.Bal), Meta: deepCopyMeta(sc.Meta)}, sc.Flag); o2.Class == o1.Class && o2.Msg == o1.Msg && !outcomeEqual(fresh, o1) {
+		o2 = fresh
+	}
 	// feature flag on / off, on fresh copies
 	on := runParsed(p, vars, numscript.StaticStore{Balances: deepCopyBalances(sc.Bal), Meta: deepCopyMeta(sc.Meta)}, true)
 	off := runParsed(p, vars, numscript.StaticStore{Balances: deepCopyBalances(sc.Bal), Meta: deepCopyMeta(sc.Meta)}, false)
